@@ -153,6 +153,65 @@ fn pred_after(s: &str, prefix: &str) -> Option<String> {
     if name.chars().all(|c| c.is_ascii_alphanumeric() || c == '_') { Some(name.to_string()) } else { None }
 }
 
+/// What one iteration of `ScopeGraph::resolve_name` consults, in source order:
+/// 0 = the scope's declarations (`declarations.get`), 1 = the `recurse` gate,
+/// 2 = the scope's imports (`.imports.get`), 3 = the parent scope. Calls of other
+/// methods of `ScopeGraph` on `self` are followed (a helper that looks a name up
+/// in one scope is part of the iteration).
+struct Consults<'f> {
+    file: &'f syn::File,
+    depth: usize,
+    out: Vec<u8>,
+}
+impl<'ast> syn::visit::Visit<'ast> for Consults<'_> {
+    fn visit_expr_method_call(&mut self, m: &'ast syn::ExprMethodCall) {
+        self.visit_expr(&m.receiver);
+        let recv = norm(&m.receiver);
+        let name = m.method.to_string();
+        if name == "get" && recv.ends_with("declarations") {
+            self.out.push(0);
+        } else if name == "get" && recv.ends_with(".imports") {
+            self.out.push(2);
+        } else if name == "parent" && recv == "self" {
+            self.out.push(3);
+        } else if recv == "self" && self.depth < 3 && name != "resolve_name" {
+            if let Ok(f) = find::func(self.file, &name, Some("ScopeGraph")) {
+                let mut inner = Consults { file: self.file, depth: self.depth + 1, out: vec![] };
+                inner.visit_block(&f.block);
+                self.out.extend(inner.out);
+            }
+        }
+        for a in &m.args {
+            self.visit_expr(a);
+        }
+    }
+    fn visit_expr_unary(&mut self, u: &'ast syn::ExprUnary) {
+        if matches!(u.op, syn::UnOp::Not(_)) && norm(&u.expr) == "recurse" {
+            self.out.push(1);
+        }
+        syn::visit::visit_expr_unary(self, u);
+    }
+}
+
+/// the values given to the variable `recurse`, in source order
+struct RecurseValues(Vec<String>);
+impl<'ast> syn::visit::Visit<'ast> for RecurseValues {
+    fn visit_local(&mut self, l: &'ast syn::Local) {
+        if norm(&l.pat).trim_start_matches("mut") == "recurse" {
+            if let Some(init) = &l.init {
+                self.0.push(norm(&init.expr));
+            }
+        }
+        syn::visit::visit_local(self, l);
+    }
+    fn visit_expr_assign(&mut self, a: &'ast syn::ExprAssign) {
+        if norm(&a.left) == "recurse" {
+            self.0.push(norm(&a.right));
+        }
+        syn::visit::visit_expr_assign(self, a);
+    }
+}
+
 fn c07facts(repo: &Path) -> Result<String, String> {
     let expr_rs = find::parse(repo, "src/typechecker/expr.rs")?;
     let mod_rs = find::parse(repo, "src/typechecker/mod.rs")?;
@@ -325,6 +384,40 @@ fn c07facts(repo: &Path) -> Result<String, String> {
         b(stub_only("insert_function", "matches!(kind,DeclarationKind::Function(None))")?),
         b(stub_only("insert_method", "matches!(kind,DeclarationKind::Method(None))")?),
     ));
+    // ---- resolve_name / resolve_module_part_of_path: which names a path segment can reach
+    {
+        use syn::visit::Visit;
+        let f = find::func(&scope_rs, "resolve_name", Some("ScopeGraph"))?;
+        let mut c = Consults { file: &scope_rs, depth: 0, out: vec![] };
+        c.visit_block(&f.block);
+        let mut steps = c.out;
+        // `if recurse && let Some(x) = …imports.get(..)`: the gate written positively guards the imports
+        if !steps.contains(&1) && norm(&f.block).contains("recurse&&") {
+            if let Some(pos) = steps.iter().position(|x| *x == 2) {
+                steps.insert(pos, 1);
+            }
+        }
+        for (code, what) in [(0u8, "declarations"), (1, "the `recurse` gate"), (2, "imports"), (3, "parent scope")] {
+            if !steps.contains(&code) {
+                return Err(format!("resolve_name: {what} not consulted ({steps:?})"));
+            }
+        }
+        let f = find::func(&expr_rs, "resolve_module_part_of_path", None)?;
+        let mut r = RecurseValues(vec![]);
+        r.visit_block(&f.block);
+        let mut vals = Vec::new();
+        for v in &r.0 {
+            match v.as_str() {
+                "true" | "false" => vals.push(v.clone()),
+                other => return Err(format!("resolve_module_part_of_path: `recurse` is given `{other}`")),
+            }
+        }
+        out.push_str(&format!(
+            "\n/-- `ScopeGraph::resolve_name` (helpers on `self` followed): what one iteration of its loop consults, in source order — 0 the scope's declarations, 1 the exit `if !recurse`, 2 the scope's imports (followed by 0: the import's target), 3 the parent scope -/\ndef resolveNameSteps : List Nat := [{}]\n/-- `resolve_module_part_of_path`: the values given to `recurse`, in source order (initially; after a leading `super`; after every segment) -/\ndef pathRecurseValues : List Bool := [{}]\n",
+            steps.iter().map(|x| x.to_string()).collect::<Vec<_>>().join(", "),
+            vals.join(", ")
+        ));
+    }
     out.push_str("\nend RotoV.Gen.C07Facts\n");
     Ok(out)
 }
